@@ -8,7 +8,7 @@ open Pharmpy Pharmpy.C14
     request  (op cfg rows)
       cfg  = (hasDose hasEvid hasSs hasMdv hasAddl)            each 0/1
       rows = ((id time amt evid ss addl ii mdv) ...)           rationals as n or n/d
-    request  (admid|cmt acfg erows)   acfg = (hasCmt hasAdm doseCmt central|none other|none ((cmt admid) ...)),
+    request  (admid|cmt acfg erows)   acfg = (hasCmt hasAdm doseCmt central centralDosing other|none ((cmt admid) ...)),
                                       erows = ((id evid cmt adm) ...)
     ops: doseid doseidloop walk regular notie tad expand mdv evid obs doses nobs nobsper
 -/
@@ -58,10 +58,10 @@ def pair? : Sexp → Option (Nat × Nat)
   | .list [.atom a, .atom b] => do some (← a.toNat?, ← b.toNat?)
   | _ => none
 
-/-- (hasCmt hasAdm doseCmt central other ((k v) ...)) -/
+/-- (hasCmt hasAdm doseCmt central centralDosing other ((k v) ...)) -/
 def acfg? : Sexp → Option ACfg
-  | .list [a, b, .atom dc, ce, ot, .list rm] => do
-    some ⟨← bool01? a, ← bool01? b, ← dc.toNat?, ← optNat? ce, ← optNat? ot, ← rm.mapM pair?⟩
+  | .list [a, b, .atom dc, .atom ce, cd, ot, .list rm] => do
+    some ⟨← bool01? a, ← bool01? b, ← dc.toNat?, ← ce.toNat?, ← bool01? cd, ← optNat? ot, ← rm.mapM pair?⟩
   | _ => none
 
 /-- (id evid cmt adm) -/
@@ -73,10 +73,7 @@ def erec? : Sexp → Option ERec
 def handleAdm (op : String) (c rs : Sexp) : Sexp :=
   match acfg? c, rs.asList?.bind (·.mapM erec?) with
   | some cfg, some ds =>
-    if op == "admid" then Sexp.ofNats (getAdmid cfg ds)
-    else match getCmt cfg ds with
-      | some v => Sexp.ofNats v
-      | none => .list [.atom "err", .atom "UnboundLocalError"]
+    if op == "admid" then Sexp.ofNats (getAdmid cfg ds) else Sexp.ofNats (getCmt cfg ds)
   | _, _ => bad
 
 def handle (req : Sexp) : Sexp :=
